@@ -37,6 +37,9 @@ def rule_reuse_first(fx, col):
                         if o[0] == 'call' and U.callee_name(parent.term(o[1])) == 'traverse':
                             tt = parent.term(o[1])
                             cd = U.def_rvalue(parent, tt['args'][0])
+                            a0 = tt['args'][0]
+                            if a0['k'] == 'const' and a0['c'].get('fn') in lib.by_key:
+                                cd = ('rv', None, None, {'closure': a0['c']['fn']})  # a named function handed to traverse
                             if cd and cd[0] == 'rv' and cd[3].get('closure'):
                                 cb = lib.by_key.get(cd[3]['closure'])
                                 claims = [s for s in cx.summ.sites_by_body.get(cb.key, ()) if s.cls == 'in_use' and s.op.startswith('compare_exchange')
@@ -65,8 +68,14 @@ def rule_reuse_first(fx, col):
                                         for st in cb.stmts(x):
                                             if st['k'] == 'assign' and st['dest']['local'] == 0 and st['rv']['k'] == 'aggregate' and st['rv'].get('variant') == 'Some':
                                                 somes.append(x)
+                                    by_comb = False
+                                    if not somes:
+                                        # `exchange.ok().map(|_| node)` / `.is_ok().then(..)`: Some exactly on the success outcome
+                                        thr2 = lambda t2: [0] if U.callee_name(t2) in ('ok', 'map', 'is_ok', 'then', 'then_some', 'and_then') else None
+                                        src = {o for o in cb.origins(0, through_calls=thr2) if o[0] != 'const'}
+                                        by_comb = src == {('call', claims[0].bb)}
                                     col.add('REUSE-FIRST', '%s|claims only on success' % cb.fname,
-                                            bool(somes) and all(_on_cas_success(cb, claims[0], x) for x in somes), 'a node is returned only when its UNUSED->USED exchange succeeded')
+                                            by_comb or (bool(somes) and all(_on_cas_success(cb, claims[0], x) for x in somes)), 'a node is returned only when its UNUSED->USED exchange succeeded')
         col.add('REUSE-FIRST', '%s|allocate only after failed reuse' % fn, ok, why, ab.loc(abb))
         # init-before-publish
         pubs = [s for s in cx.summ.sites_by_body.get(ab.key, ()) if s.cls == 'list_head' and s.op.startswith('compare_exchange')]
@@ -85,6 +94,24 @@ def rule_reuse_first(fx, col):
         good = bool(wr) and bool(pubs) and all(any(ab.pos_dominates((bb, i), ab.term_pos(p.bb)) for bb, i, _ in wr) for p in pubs)
         # and next := the expected head of the exchange
         same = bool(wr) and bool(pubs) and all(ab.origins(st['rv'].get('op')) == ab.origins(p.arg(1)) for _, _, st in wr for p in pubs)
+        # or the exchange expects what `next` holds right now: `compare_exchange(node.next as *mut _, node, ..)`, the expected value
+        # read from the field in the block of the exchange itself, after the last write of the field there
+        def reads_next(p):
+            op = p.arg(1)
+            for _ in range(4):
+                if op is None or op.get('k') not in ('copy', 'move'):
+                    return False
+                pl = op['place']
+                if any(e['k'] == 'field' and e.get('adt') == 'arc_swap::debt::list::Node' and e.get('name') == 'next' for e in pl['proj']):
+                    return True
+                ds = [x for x in ab.assigns().get(pl['local'], ()) if not x[4]]
+                if pl['proj'] or len(ds) != 1 or ds[0][2] != 'stmt' or ds[0][0] != p.bb or ds[0][3]['k'] not in ('use', 'cast'):
+                    return False
+                if any(bb == p.bb and i > ds[0][1] for bb, i, _ in wr):
+                    return False
+                op = ds[0][3]['op']
+            return False
+        from_field = bool(wr) and bool(pubs) and all(reads_next(p) for p in pubs)
         # a retried exchange expects a *new* head: on every path to the exchange the last write of `next` is younger than
         # the last assignment of the expected-head variable (forward must-analysis: LINKED after `next = head`, lost when
         # `head` is assigned)
@@ -121,7 +148,7 @@ def rule_reuse_first(fx, col):
             from . import dataflow as DF
             ins, before = DF.forward(ab, False, stmt_fn, term_fn, lambda a, b_: a and b_, unwind=False)
             in_iter = in_iter and before.get(p.bb) is True
-        col.add('REUSE-FIRST', '%s|next = expected head' % fn, good and same and in_iter,
+        col.add('REUSE-FIRST', '%s|next = expected head' % fn, (good and same and in_iter) or (good and from_field),
                 'node.next is set to the head the exchange expects, before the exchange' + ('' if in_iter else
                 ' — but NOT inside the retry loop: after a failed exchange the new expected head is no longer what next points to (nodes added in between are unlinked)'))
     # init makes space_offer point at the own envelope: ENVELOPE-PROVENANCE checks the value
